@@ -6,7 +6,6 @@ use crate::mon::snap::SnapHook;
 use crate::mon::{self, Stats, View, Violation};
 use crate::sim::{self, PipeEnd, PipeState, RunEnd, TaskKind};
 use crate::trace::{ErrInfo, EvK, Op, Phase, Res, Side};
-use bytes::Bytes;
 use h2::client;
 use std::cell::RefCell;
 use std::collections::BTreeMap;
@@ -24,7 +23,7 @@ pub struct Outcome {
     pub trace_tail: Vec<String>,
 }
 
-type Keeper = Rc<RefCell<Option<client::SendRequest<Bytes>>>>;
+type Keeper = Rc<RefCell<Option<client::SendRequest<crate::apps::actors::BodyBuf>>>>;
 
 fn log_api(conn: u8, side: Side, op: Op, phase: Phase, op_id: u32, res: Res) {
     sim::log(
@@ -49,7 +48,7 @@ fn log_api(conn: u8, side: Side, op: Op, phase: Phase, op_id: u32, res: Res) {
 async fn client_main(ctx: Ctx, io: PipeEnd, sc: Rc<Scenario>, ctl: ConnCtlRef, server_ctl: ConnCtlRef, hooks: SnapHook, keeper: Keeper, keep: bool) {
     let id = sim::with(|w| w.trace.next_op_id());
     log_api(ctx.conn, ctx.side, Op::Handshake, Phase::Call, id, Res::None);
-    let r = client_builder(&sc.client).handshake::<_, Bytes>(io).await;
+    let r = client_builder(&sc.client).handshake::<_, crate::apps::actors::BodyBuf>(io).await;
     let (sr, conn) = match r {
         Ok(x) => {
             log_api(ctx.conn, ctx.side, Op::Handshake, Phase::Ret, id, Res::Ok);
@@ -283,6 +282,24 @@ pub fn run_scenario(sc: &Scenario) -> Outcome {
             if end == RunEnd::Quiescent && !client_ctl.borrow().done && !server_ctl.borrow().done {
                 check_forgotten(Side::Client, &chook, Some(2), &mut extra_viol, &mut stats);
                 check_forgotten(Side::Server, &shook, Some(1), &mut extra_viol, &mut stats);
+                if sc.coop {
+                    // keep-alive pings on the idle connection: a back-to-back series from each side, with
+                    // nothing else giving the connection tasks a reason to run
+                    send_cmd(&client_ctl, ConnCmd::Op(ConnOpKind::Ping));
+                    send_cmd(&server_ctl, ConnCmd::Op(ConnOpKind::Ping));
+                    end = sim::run(sc.max_steps);
+                    stats.inc("idle_ping_phases");
+                    if end == RunEnd::Quiescent && !client_ctl.borrow().done && !server_ctl.borrow().done {
+                        let stuck = pending_ops_of(true);
+                        if stuck > 0 {
+                            extra_viol.push(Violation::new(
+                                "C06",
+                                "user-ping-pending-at-quiescence-on-idle-connection",
+                                format!("{} ping operation(s) still pending after the world went quiet with both connections alive and idle", stuck),
+                            ));
+                        }
+                    }
+                }
                 // second wave on the same connection (recycled slab slots)
                 let sr = keeper.borrow().as_ref().unwrap().clone();
                 let done = Rc::new(RefCell::new(0u32));
@@ -360,6 +377,57 @@ pub fn run_scenario(sc: &Scenario) -> Outcome {
                         x.has_send_task, x.has_recv_task, x.has_push_task, x.pending_send_empty, x.pending_recv_empty
                     ));
                 }
+            }
+        }
+        if sc.coop {
+            // C16 "every wait for capacity is woken when capacity arrives": poll the parked capacity waiters once
+            // more by hand (application tasks only). A wait that now returns capacity, before the connection of its
+            // side has run again, had its capacity all along - nobody told it.
+            let waiting: Vec<(u32, Side, u32)> = sim::with(|w| {
+                let mut open = std::collections::BTreeMap::new();
+                for e in &w.trace.evs {
+                    if let EvK::Api(a) = &e.k {
+                        if a.op == Op::PollCapacity && a.op_id != 0 {
+                            match a.phase {
+                                Phase::Call => {
+                                    open.insert(a.op_id, (a.side, a.sid));
+                                }
+                                Phase::Ret => {
+                                    open.remove(&a.op_id);
+                                }
+                            }
+                        }
+                    }
+                }
+                open.into_iter().map(|(id, (side, sid))| (id, side, sid)).collect()
+            });
+            if !waiting.is_empty() {
+                stats.add("c16.capacity_waits_pending_at_quiescence", waiting.len() as u64);
+                let from = sim::events_len();
+                sim::wake_app_tasks();
+                let _ = sim::run(200_000);
+                sim::with(|w| {
+                    let mut conn_ran = [false, false];
+                    for e in &w.trace.evs[from..] {
+                        match &e.k {
+                            EvK::ConnPoll { side, begin: true } => conn_ran[side.wdir()] = true,
+                            EvK::Api(a) if a.op == Op::PollCapacity && a.phase == Phase::Ret => {
+                                if let Some((_, side, sid)) = waiting.iter().find(|(id, _, _)| *id == a.op_id) {
+                                    if let Res::Val(n) = a.res {
+                                        if n > 0 && !conn_ran[side.wdir()] {
+                                            extra_viol.push(Violation::new(
+                                                "C16",
+                                                "capacity-wait-not-woken-although-capacity-had-arrived",
+                                                format!("{} stream {}: poll_capacity was parked when the world went quiet; polled again by hand it returned {} bytes at once, before its connection ran", side.name(), sid, n),
+                                            ));
+                                        }
+                                    }
+                                }
+                            }
+                            _ => {}
+                        }
+                    }
+                });
             }
         }
         sim::wake_all();
